@@ -171,6 +171,12 @@ def persist_replay_rule(ctx, rid):
         sv = arg(ec, None, "shuffle")
         stores = [n for n in g.nodes if n.kind == "stmt" and isinstance(n.ast, ast.Assign) and any(path_key(t) == "self.shuffle" for t in n.ast.targets)]
         late = [s for s in stores if g.can_reach(pn.id, s.id) and s.id != pn.id]
+        # a local that was given `self.shuffle` once, after every store of self.shuffle (the temporary of a helper that was read
+        # through) stands for self.shuffle
+        if isinstance(sv, ast.Name) and sv.id not in m.params:
+            d_ = single_def(m, sv.id, g)
+            if d_ is not None and d_[1] is not None and norm(d_[1]) == "self.shuffle" and all(g.completes_before(s.id, d_[0].id) for s in stores):
+                sv = d_[1]
         if sv is None:
             rr.bad(ctx.finding(rid, m, ec, "%s enumerates without a shuffle argument (unshuffled) while save_info persists self.shuffle: a Crop(shuffle=...) is sown unshuffled but reaped shuffled" % name, construct="sow-shuffle-missing"), "%s shuffle" % name)
         elif norm(sv) == "self.shuffle":
